@@ -20,6 +20,15 @@ from harness.util import import_df, attempt
 
 df = import_df()
 
+try:        # the runner is a private subprocess: a runaway allocation must fail there, not take the machine down
+    import resource
+    _soft, _hard = resource.getrlimit(resource.RLIMIT_AS)
+    _cap = 16 * 2 ** 30
+    if _soft == resource.RLIM_INFINITY or _soft > _cap:
+        resource.setrlimit(resource.RLIMIT_AS, (_cap, _hard))
+except (ImportError, ValueError, OSError):
+    pass
+
 SCALES = [1e-12, 1e-9, 1e-6, 1e-3, 1.0, 1e3, 1e6]
 DIM_POOL = ["x", "y", "z", "a", "b", "t", "r0", "long_name", "X", "q_1", "u", "w", "V", "n", "r", "v", "T", "cell",
             "pmin", "nvdim", "units"]
@@ -188,7 +197,8 @@ def gen_imports(rng, fs, tier):
                     x0 = F(rng.randint(-512, 512), 16) * e2
                     vals = [x0 + j * c for j in range(fs["n"][a])]
                 else:
-                    c = round(rng.uniform(0.2, 9.0), 2) * s
+                    # the field's own scale: a kept 'cell' attribute and the new spacing stay within a factor of ~20
+                    c = round(rng.uniform(0.2, 4.0), 2) * float(cell[a])
                     x0 = rng.choice([0.0, round(rng.uniform(-300, 300), 1)]) * c
                     vals = [F(x0 + j * c) for j in range(fs["n"][a])]
                 coords[str(a)] = [S(v) for v in vals]
@@ -534,6 +544,33 @@ def apply_mods(xa, fs, mods):
     return xa
 
 
+MAX_IMPLIED_CELLS = 2 * 10 ** 5
+
+
+def implied_cells(o):
+    """number of cells from_xarray would ask for, from the observed DataArray (cell attribute or mean spacing,
+    corner attributes or outermost coordinates); None if it cannot be estimated"""
+    try:
+        total = 1
+        for a, v in enumerate(o["coords"]):
+            if not v:
+                return None
+            if o["a_cell"] is not None:
+                c = o["a_cell"][a]
+            elif len(v) >= 2:
+                c = (v[-1] - v[0]) / (len(v) - 1)
+            else:
+                return None
+            if c == 0:
+                return None
+            lo_ = o["a_pmin"][a] if o["a_pmin"] is not None else v[0] - c / 2
+            hi_ = o["a_pmax"][a] if o["a_pmax"] is not None else v[-1] + c / 2
+            total *= max(1, abs(int((hi_ - lo_) / c)))
+        return total
+    except (IndexError, TypeError, ZeroDivisionError):
+        return None
+
+
 def max_unevenness(coords):
     """largest |d - mean| / |mean| over the axes (exact); None for axes with < 2 points"""
     worst = F(0)
@@ -760,6 +797,13 @@ def run_case(c):
     mods = c["mods"]
     xa = apply_mods(f.to_xarray(), fs, mods)
     o = observe_da(xa)
+    big = implied_cells(o) if o["numeric"] else None
+    if big is not None and big > MAX_IMPLIED_CELLS:
+        # attributes that contradict the coordinates by orders of magnitude (not generated on purpose): the import would
+        # try to allocate a mesh of that many cells; not this property's business and dangerous on a shared machine
+        rec.update(obs=dict(skipped=f"implied cell count {big}"), coq=None, key="import/skipped-huge", size=nd,
+                   nontrivial=False)
+        return rec
     snap = attrs_snapshot(xa)
     st, gfield = attempt(lambda: df.Field.from_xarray(xa))
     exact_cmp = exact and not mods.get("inexact")
@@ -988,6 +1032,9 @@ def stats(records):
     out = {}
     for r in records:
         res = r["obs"].get("result", r["obs"]) if isinstance(r["obs"], dict) else {}
+        if isinstance(r["obs"], dict) and "skipped" in r["obs"]:
+            out["skipped"] = out.get("skipped", 0) + 1
+            continue
         k = r["kind"] + ("/rejected" if isinstance(res, dict) and "err" in res else "/ok")
         out[k] = out.get(k, 0) + 1
     out["tagged"] = sum(1 for r in records if r["tags"])
